@@ -5,6 +5,7 @@ import ParryModel.C03.Theorems
 import ParryModel.C02.Theorems2
 import ParryModel.C02.Theorems3
 import ParryModel.C02.Theorems4
+import ParryModel.C02.Theorems5
 /-!
 # C02 property theorems for the closed forms: contacts are self-consistent certificates and the four overlap
 verdicts agree.
